@@ -11,8 +11,16 @@
             `open` / `subprocess` of those modules replaced by in-memory fakes
 
 Values are generated from the type annotations of the real classes (typing.get_type_hints /
-pydantic model_fields), boundary-biased. A *spec* is a JSON-able description of a value; `build`
-turns it into the real object, so a replay file is self-contained.
+pydantic model_fields): a deterministic sweep (`sweep_cases`: every class x every leaf x every
+boundary value, structured identifier and container shape, one change at a time -- identical for
+every seed) and random values (`gen`), boundary-biased, in which identifiers with the separators
+the code itself uses (`.`, `,`, `:`, `/`, `|`, blanks), empty components, ids whose reprs coincide
+and mappings declared in non-sorted key order are frequent. A *spec* is a JSON-able description of
+a value; `build` turns it into the real object, so a replay file is self-contained.
+
+Comparison (`diff`): field by field over dataclasses / pydantic models (never through repr, str or
+a class's own __eq__ alone), strict about scalar types, and ORDER-SENSITIVE for the mappings whose
+order carries meaning (ORDERED_FIELDS: output_schema binds generator results in declaration order).
 
 Oracle (property text): decode(encode(m)) == m; an encoder may refuse a value only if the value is
 outside the domain of the encoding (JSON: 64-bit integers, well-formed unicode, finite floats;
@@ -1191,6 +1199,94 @@ def sweep_cases(light=False):
 def json_copy(x):
     import json
     return json.loads(json.dumps(x))
+
+
+# --------------------------------------------------------------------------- shrinking of a failing case
+
+def _smaller(spec):
+    """one-step smaller variants of a spec (lazily)"""
+    if isinstance(spec, list):
+        for i in range(len(spec)):
+            yield spec[:i] + spec[i + 1:]
+        for i, x in enumerate(spec):
+            for y in _smaller(x):
+                yield spec[:i] + [y] + spec[i + 1:]
+    elif isinstance(spec, dict):
+        if "$d" in spec:
+            ps = spec["$d"]
+            for i in range(len(ps)):
+                yield {"$d": ps[:i] + ps[i + 1:]}
+            for i, (k, v) in enumerate(ps):
+                for y in _smaller(v):
+                    yield {"$d": ps[:i] + [[k, y]] + ps[i + 1:]}
+                for y in _smaller(k):
+                    if all(y != k2 for k2, _ in ps):
+                        yield {"$d": ps[:i] + [[y, v]] + ps[i + 1:]}
+        elif "$set" in spec or "$t" in spec:
+            tag = "$set" if "$set" in spec else "$t"
+            xs = spec[tag]
+            if tag == "$set":
+                for i in range(len(xs)):
+                    yield {tag: xs[:i] + xs[i + 1:]}
+            for i, x in enumerate(xs):
+                for y in _smaller(x):
+                    yield {tag: xs[:i] + [y] + xs[i + 1:]}
+        elif "$c" in spec:
+            try:
+                types_ = dict(fields_of(registry()[spec["$c"]]))
+            except Exception:
+                types_ = {}
+            for n, v in spec["f"].items():
+                tp = types_.get(n)
+                if v is not None and tp is not None and _is_union(tp) and type(None) in typing.get_args(tp):
+                    yield {"$c": spec["$c"], "f": dict(spec["f"], **{n: None})}      # only where the field's type admits None
+                for y in _smaller(v):
+                    yield {"$c": spec["$c"], "f": dict(spec["f"], **{n: y})}
+        elif "$b" in spec:
+            if len(spec["$b"]) > 2:
+                yield {"$b": ""}
+                yield {"$b": spec["$b"][:2]}
+    elif isinstance(spec, str):
+        if len(spec) > 12:
+            yield spec[:4]
+        elif len(spec) > 3 and spec.isalnum():
+            yield spec[0]
+    elif isinstance(spec, int) and not isinstance(spec, bool):
+        if abs(spec) > 9:
+            yield 1
+
+
+def shrink(case, budget=400):
+    """Greedy reduction of a failing sampled case: a smaller case is taken if the oracle fails on it with the same signature."""
+    r0 = evaluate(case)
+    if r0["violation"] is None:
+        return case
+    sig = r0["violation"][0]
+    cur = case
+    used = 0
+    progress = True
+    while progress and used < budget:
+        progress = False
+        for part in ("spec", "rsp"):
+            if part not in cur:
+                continue
+            for cand in _smaller(cur[part]):
+                if used >= budget:
+                    break
+                c2 = dict(cur, **{part: cand})
+                c2.pop("sweep", None)
+                used += 1
+                try:
+                    r = evaluate(c2)
+                except Exception:
+                    continue
+                if r["violation"] is not None and r["violation"][0] == sig:
+                    cur = c2
+                    progress = True
+                    break
+            if progress:
+                break
+    return cur
 
 
 # --------------------------------------------------------------------------- dispatch + oracle
